@@ -12,7 +12,7 @@ open(f,'w').write(s.replace(old,new,1))
 PY
 GOFLAGS=-mod=mod GOPROXY=off GOSUMDB=off GOTOOLCHAIN=local go build ./... || { echo "does not compile"; git checkout -- .; exit 3; }
 GOFLAGS=-mod=mod GOPROXY=off GOSUMDB=off GOTOOLCHAIN=local go test -vet=off -count=1 . 2>&1 | tail -1
-( cd /verif && ./check "$ID" "$TIER" > /tmp/mut.out 2>&1 ); rc=$?
+( cd /verif && VERIF_EVIDENCE_DIR=/tmp/mut-evidence ./check "$ID" "$TIER" > /tmp/mut.out 2>&1 ); rc=$?
 git -C /repo checkout -- .
 grep -E "^VIOLATION|violation \[" /tmp/mut.out | head -3 | cut -c1-260
 tail -1 /tmp/mut.out
